@@ -65,6 +65,26 @@ CLAIMED = {
    text="TLC evaluates the definition of chi_AB (bosonic Lehmann sum incl. the beta-proportional zero-pole contribution, exact integers; spec/Lehmann.tla) on the exact family; the library's Susceptibility at n in -2..2 and on a tau grid, for density-density, spin-flip and random operator pairs, without subtraction and with the three ways of supplying <A>,<B>, is compared with the specification; the subtracted object must differ from the plain one by beta<A><B> at W=0 only.",
    note="TLC; comparator; exact family only",
    tech="TLA+ exact Lehmann definition + TLC; specification-predicted values compared with the library's outputs"),
+ "C02": dict(cat="model_checking", ref="6 C02",
+   text="TLC enumerates, for every model of the exact family and every requested quadruple, all closed paths of exact matrix elements for the six time orderings of the documented definition (spec/Lehmann.tla ChiPaths, exact integers, symbolic weights) after checking the model obligations; the comparator integrates the time-ordered exponentials symbolically (exact case split on vanishing exponents, so resonances are derived, not transcribed) and the library's values are compared on four evaluation paths: operator(), the table of compute(false,freqs) and on-demand values afterwards, the table of compute(true,freqs); all 16 quadruples x all 64 triples of {-2..1}^3 x 3 betas on two-mode models (half-filled atom, free, fully degenerate, rotated, Bogoliubov), sampled on 3-4 modes; table lengths incl. empty frequency lists and vanishing components.",
+   note="TLC; comparator incl. ~40 lines of symbolic integration of exponentials (DESIGN.md fallback: the integration is in the comparator, not in TLC); exact family only",
+   tech="TLA+ path enumeration from the definition + TLC; symbolic time-ordered integration in the comparator; comparison with the library on all evaluation paths"),
+ "C08": dict(cat="model_checking", ref="6 C08",
+   text="Soundness of every accepted linear partition is model-checked in Symmetry.tla (shared with C07); on the real library general integer models (irrational spectra) are computed under 7 partitions each (default, ignored, {N}, alternating, {N,alt}, random linear sets) and spectrum, weights, averages, occupancies, all G_ij (Matsubara, off-axis, tau), chi for 9 quadruples x 8 triples and 5 susceptibilities are recorded as quantised observations; TLC (ObsTrace.tla) requires every observation to agree with the first one under the same (model, observable, arguments) within one quantum.",
+   note="TLC; quantisation 1e-8 (statics) / 1e-6 (G, chi, susceptibility: documented dropping of residues below 1e-8 depends on the eigenbasis)",
+   tech="TLA+ observation-invariance trace specification + TLC over recorded observables under different partitions"),
+ "C12": dict(cat="model_checking", ref="6 C12",
+   text="TLC computes (z-h)^-1 = Adj(z)/Det(z) by the Faddeev-LeVerrier recursion in exact integers for a catalogue of integer symmetric h (spec/Wick.tla) and checks the defining polynomial identity; the library's G_ij on and off the axis, chi for all/sampled quadruples x all 64 triples of {-2..1}^3 against the antisymmetrised product of those exact propagators, and Vertex4::value against 0, for zero, degenerate, block-diagonal and spin-mixing h at three betas.",
+   note="TLC; comparator evaluating the rational functions; real symmetric h; not limited to rational spectra",
+   tech="TLA+ exact rational-function oracle + TLC; comparison of the library's G, chi and vertex"),
+ "C19": dict(cat="model_checking", ref="6 C19",
+   text="TLC checks that the truncation design (retain rule, stripe filter; spec/Truncation.tla) satisfies its definition (a stripe is skipped only if all its blocks are discarded, a block only if no weight exceeds eps, so lost terms have all weights <= eps); on the real library the retain flags against its own weights and the world stripes of G, chi and susceptibility before/after truncation are validated by TLC (TruncTrace.tla), values are checked against the property's bounds and eps = 0 must leave every value bit-for-bit unchanged.",
+   note="TLC; python comparison of doubles for (max weight > eps) and for the bounds",
+   tech="TLA+ truncation rule + TLC; trace validation of recorded flags and stripe selections; relational bounds"),
+ "C17": dict(cat="exploration", ref="6 C17",
+   text="TLC model-checks the three index-chasing loops (spec/Chase.tla) for all pairs of index sets within 0..4: no index() on an invalid iterator and exactly the common indices found; the library and harness are rebuilt with AddressSanitizer + UndefinedBehaviorSanitizer and the scenario families of the other properties (lattice histories, index tables, storage, operator algebra with == shape probes, container histories, and the complete workflow incl. truncation, empty frequency lists, both table paths, vertex storage, under default and ignored symmetries on catalogue, random and exact-family models) are replayed; any sanitizer report is a violation.",
+   note="sanitizers observe executed paths only; single rank; leak detection off",
+   tech="TLA+ model of the chasing loops + TLC for the inputs; sanitizer-instrumented replay of specification-generated scenario families"),
 }
 NOT_YET = "check not built yet in this round (planned in DESIGN.md section 6); not claimed until it runs"
 
